@@ -32,7 +32,10 @@ func init() {
 		Rule: "type-directed by reflection over the library's own structs. Exhaustive: every object kind of openapi3 and openapi2 (struct kinds, reference wrappers, map-like containers) × every single field × every value variant of the field's Go type " +
 			"(non-default, redundant default, null, empty, $ref with and without siblings, $ref that is empty / null / not a string, type lists that are empty, hold null or are ill-typed) × 3 extension shapes (none, x- extension, unknown key) × writers/readers (encoding/json, oasdiff/yaml, yaml3 via MarshalYAML); every pair of fields of every kind; " +
 			"the Schema post-processing grid format × example (flat and nested); " +
-			"then a seeded random stream of nested documents (depth ≤ 4; 400 per kind quick, 8000 thorough) of every kind, whole v3 documents through Loader.LoadFromData (800 / 20000) and whole v2 documents. " +
+			"then a seeded random stream of nested documents (depth ≤ 4; 400 per kind quick, 8000 thorough) of every kind, whole v3 documents through Loader.LoadFromData (800 / 20000; components that are chains of references, paths that refer to other paths) and whole v2 documents. " +
+			"The Loader route, directed (c03loader.go): every reference site of every component kind (schemas in properties / items / allOf / anyOf / oneOf / not / additionalProperties / parameter / header / media type; parameters of path items and operations; headers of responses and encodings; request bodies; responses; security schemes; examples; links; callbacks) × " +
+			"{direct, chain of 2, chain of 3, fragment in another file, chain inside another file, chain through another file back into the root, whole other file} with IsExternalRefsAllowed and an in-memory ReadFromURIFunc; path-item references: single, chains of 2 and 3 in either declaration order, shared target, templated path, in a callback, whole other file, other file that is itself a reference, fragment of another file, chain inside another file. " +
+			"For these the loaded document is serialised and compared with the input (every $ref text as written, nothing of the resolved value). " +
 			"A case is non-trivial when the model reports a branch (a kind visited, a field kept, a default dropped, a required key added, an extension or unknown key kept, a reference taken, siblings dropped, …); the branch spec.normal counts the cases in deep normal form, excl.notClean those outside the scope of the deep theorems.",
 		Exhaustive: true,
 		Gen:        genC03,
@@ -186,9 +189,14 @@ func runC03Direct(c hx.Case) any {
 		}
 	}
 	useLoader := jbool(c, "loader") && k.name == "openapi3.T"
+	files, _ := c["files"].(map[string]any)
 	load := func(data []byte) (any, error) {
 		if useLoader {
-			return openapi3.NewLoader().LoadFromData(data)
+			ld, loc := c03NewLoader(files)
+			if loc != nil {
+				return ld.LoadFromDataWithPath(data, loc)
+			}
+			return ld.LoadFromData(data)
 		}
 		x := reflect.New(k.typ).Interface()
 		return x, c03Read(format, data, x)
@@ -260,6 +268,10 @@ func cmpC03x(c hx.Case, impl any, reply map[string]any) hx.Verdict {
 	case "unparsed":
 		if mf, _ := model["first"].(map[string]any); mf != nil && jbool(mf, "unparsed") {
 			return hx.Verdict{IM: true, IS: true} // the model says so too (typing of `Types`)
+		}
+		if jbool(c, "mustLoad") {
+			// a directed loader document: built so that every reference resolves
+			return hx.Verdict{IM: false, IS: true, Detail: "directed loader document refused: " + jstr(im, "err")}
 		}
 		// outside the quantifier; a document the specification side calls normal is well-typed and must parse
 		// (the loader applies document-level checks of its own while resolving references: not a parsing matter)
@@ -963,6 +975,8 @@ func genC03(ctx *hx.Ctx, emit func(hx.Case)) {
 			c03Emit(emit, k, hx.Pick(r, c03FormatsOf(k)), gg.object(k.typ, depth), false)
 		}
 	}
+	// 2b. the Loader route, directed: every reference site × every reference form, path-item references
+	genC03Loader(ctx, emit)
 	// 3. whole v3 documents through the loader (references resolvable)
 	m := 800
 	if ctx.Thorough() {
@@ -980,6 +994,9 @@ func genC03(ctx *hx.Ctx, emit func(hx.Case)) {
 			doc["paths"] = map[string]any{}
 		}
 		c03Resolvable(gg, doc)
+		if r.Chance(50) {
+			c03PathRefs(gg, doc)
+		}
 		format := "json"
 		if i%3 == 1 {
 			format = "yaml"
@@ -995,6 +1012,7 @@ func c03Resolvable(g *c03Gen, doc map[string]any) {
 		"requestBodies": reflect.TypeOf(openapi3.RequestBody{}), "responses": reflect.TypeOf(openapi3.Response{}), "securitySchemes": reflect.TypeOf(openapi3.SecurityScheme{}),
 		"examples": reflect.TypeOf(openapi3.Example{}), "links": reflect.TypeOf(openapi3.Link{}), "callbacks": reflect.TypeOf(openapi3.Callback{}),
 	}
+	chained := map[string]bool{}
 	for round := 0; round < 4; round++ {
 		refs := map[string]bool{}
 		var walk func(v any)
@@ -1034,12 +1052,18 @@ func c03Resolvable(g *c03Gen, doc map[string]any) {
 				comps[parts[0]] = coll
 			}
 			if cur, ok := coll[parts[1]].(map[string]any); ok {
-				if _, isRef := cur["$ref"]; !isRef {
+				if _, isRef := cur["$ref"]; !isRef || chained[ref] {
 					continue
 				}
 			}
-			gg := &c03Gen{r: g.r, sloppy: 0, loader: true}
-			coll[parts[1]] = gg.object(types[parts[0]], 0)
+			if round < 2 && g.r.Chance(30) {
+				// a chain: this component is itself a reference to a fresh one, made real by a later round
+				coll[parts[1]] = map[string]any{"$ref": "#/components/" + parts[0] + "/" + parts[1] + "x"}
+				chained[ref] = true
+			} else {
+				gg := &c03Gen{r: g.r, sloppy: 0, loader: true}
+				coll[parts[1]] = gg.object(types[parts[0]], 0)
+			}
 			added = true
 		}
 		if !added {
